@@ -3,9 +3,17 @@ from props import prop
 prop("C20", "exploration",
      "exhaustive: every pattern over {a,b,*} of length 0..6 x every input over {a,b} of length 0..7 (thorough: 0..8 / 0..9); "
      "random pairs over {a,b,c,.,-,*} up to length 40, half built by instantiating the pattern's stars and then perturbed; "
-     "host-block lists and vhost lists over the same pattern space. Oracle: dynamic-programming glob reference (star = any "
+     "host-block lists and vhost lists over the same pattern space; SEQUENCES of 1..6 lookups on ONE client configuration "
+     "(Global + 0..5 blocks each setting a drawn subset of Hostname/User/Key/Cmd/Port/CAFiles/AutoSelfSign; built as a "
+     "struct literal or rendered to TOML and read by LoadClientConfigFromFile from a map file system), hosts repeating "
+     "now and then, the caller using each returned block as flags.mergeClientFlagsAndConfig does (assign address / "
+     "command fields, MergeWith a second lookup, Unwrap). Oracle: dynamic-programming glob reference (star = any "
      "string, everything else literal), cross-checked against path.Match at start-up; MatchHost must merge exactly the "
-     "matching blocks in order, VirtualHosts.Match must return the first matching entry. Non-trivial = pattern with both a "
+     "matching blocks in order, VirtualHosts.Match must return the first matching entry; in a sequence every lookup must "
+     "equal the model merge AND the same lookup on a newly built copy of the configuration, the configuration object "
+     "must read the same as a never-used copy after every lookup and after the caller's use of the result, and a block "
+     "handed out earlier and not touched by the caller must still read as when returned. Non-trivial (sequences) = >= 2 "
+     "lookups with >= 2 different sets of applied blocks, one of which sets an option. Non-trivial (others) = pattern with both a "
      "star and a literal, or empty input with a non-empty pattern; distinct by (pattern,input) / list hash.",
      ["matching is byte-wise, case-sensitive (as the package documents by its commented-out fold option)"],
      [dict(name="glob", pkg="pkg/glob", run="^TestVerifC20", shards=dict(quick=8, thorough=16), thorough_scale=20),
@@ -14,7 +22,9 @@ prop("C20", "exploration",
      exhaustive_core=True,
      text="The real Glob is compared with a dynamic-programming reference on every pattern/input pair of a small alphabet up to "
           "length 6/7 (exhaustive) and on random longer pairs built to match or nearly match; MatchHost and VirtualHosts.Match "
-          "are compared with the reference applied to generated block / vhost lists. Panics are caught and reported.",
+          "are compared with the reference applied to generated block / vhost lists; sequences of lookups on one configuration "
+          "object (literal or parsed from TOML) must each equal the lookup on a new copy and leave the object unchanged. "
+          "Panics are caught and reported.",
      note="trusts the DP reference (cross-checked against path.Match at start-up) and rapid",
      technique="property-based testing (rapid) + exhaustive small-alphabet enumeration against a reference matcher",
      design="DESIGN.md section 4, C20")
